@@ -23,14 +23,14 @@ import (
 
 func c05GenFx(r *verifh.Rng) []verifh.Section {
 	var secs []verifh.Section
-	for i := 0; i < verifh.Scale(6, 60); i++ {
+	for i := 0; i < verifh.Scale(6, 200); i++ {
 		n := r.Pick(1, 2, 3, r.Range(1, 8), 16)
 		secs = append(secs, verifh.Section{Cfg: fmt.Sprintf("kind=fx mode=conc n=%d", n), Ops: []string{
 			fmt.Sprintf("run items=%d pan=%d rs=%d", r.Range(1, verifh.Scale(200, 600)), r.Pick(0, 10, 40), r.Intn(1<<30)),
 			fmt.Sprintf("run items=%d pan=%d rs=%d", r.Range(1, 60), 100, r.Intn(1<<30)),
 		}})
 	}
-	for i := 0; i < verifh.Scale(6, 60); i++ {
+	for i := 0; i < verifh.Scale(6, 200); i++ {
 		n := r.Pick(1, 2, 3, r.Range(1, 8), 16)
 		secs = append(secs, verifh.Section{Cfg: fmt.Sprintf("kind=mr mode=conc n=%d", n), Ops: []string{
 			fmt.Sprintf("run api=foreach items=%d pan=%d rs=%d", r.Range(1, verifh.Scale(200, 600)), r.Pick(0, 0, 5), r.Intn(1<<30)),
